@@ -71,7 +71,7 @@ for pid in props:
 
 m = {
  "version": 1,
- "setup_cmd": "cd /verif/dst && CARGO_NET_OFFLINE=true CARGO_TARGET_DIR=/verif/target cargo build --release --offline && cd /verif/dst-disabled && CARGO_NET_OFFLINE=true CARGO_TARGET_DIR=/verif/target-disabled cargo build --release --offline",
+ "setup_cmd": "cd /verif/dst && CARGO_NET_OFFLINE=true CARGO_TARGET_DIR=/verif/target cargo build --release --offline && CARGO_NET_OFFLINE=true CARGO_TARGET_DIR=/verif/target-checked cargo build --release --offline --config 'profile.release.package.fastrace.debug-assertions=true' --config 'profile.release.package.fastrace.overflow-checks=true' --config 'profile.release.package.fastrace-futures.debug-assertions=true' --config 'profile.release.package.fastrace-futures.overflow-checks=true' && cd /verif/dst-disabled && CARGO_NET_OFFLINE=true CARGO_TARGET_DIR=/verif/target-disabled cargo build --release --offline",
  "hooks": {
    "guard": "fastrace_verif",
    "enable": "RUSTFLAGS=\"--cfg fastrace_verif\" (set in /verif/dst/.cargo/config.toml; the harness crate has path dependencies on /repo/fastrace and /repo/fastrace-futures)",
